@@ -31,7 +31,8 @@ def to_pandas(frame):
             # pandas' nullable integer dtype: missing cells are pd.NA
             data[c["name"]] = pd.array([None if x is None else int(x) for x in v], dtype="Int64")
         elif t == "float":
-            data[c["name"]] = np.array([np.nan if x is None else float(Fraction(x)) for x in v], dtype="float64")
+            data[c["name"]] = np.array([np.nan if x is None else (float(x) if x in ("inf", "-inf") else float(Fraction(x)))
+                                        for x in v], dtype="float64")
         elif t == "datetime":
             data[c["name"]] = pd.to_datetime(pd.Series(v, dtype="object"))
         elif t == "str":
